@@ -235,6 +235,8 @@ def gen_rev_abandon_case(rng):
     did not give up is answered with its own result."""
     n = rng.choice([3, 4, 6, 8])
     quitters = sorted(rng.sample(range(n - 1), rng.choice([1, 1, 2]) if n > 3 else 1))
+    if rng.random() < 0.6 and 0 not in quitters:
+        quitters = [0] + quitters[1:]        # the OLDEST queued call gives up (and possibly another one)
     steps = []
     for k in range(n):
         steps.append(["invoke", k, "pa", 25 if k in quitters else 0, 0, "echo"])
@@ -638,6 +640,14 @@ def oracle(case, obs):
                         "reverse: the provider returned the outcome of caller %d's call (identifier %d, slot %d of its batch) under identifier %d: "
                         "its caller gets nothing (%s) and whoever holds identifier %d may get it"
                         % (e["k"], fetched[e["k"]]["i"], fetched[e["k"]].get("x", 0), e["i"], res.get(str(e["k"]), "still waiting")[:30], e["i"]))
+    if case.get("abandon"):
+        # a call that gave up while still queued (long before the provider started) is withdrawn: it is not handed to the
+        # provider later, and nothing of it stays queued
+        for e in log:
+            if e["e"] == "prov-recv" and e["k"] in case.get("unanswered", []):
+                return ("c09:rev:abandoned-call-still-delivered",
+                        "reverse: caller %d gave up (25 ms deadline) while its call was queued for a provider that was not listening; "
+                        "when the provider started 120 ms later the call was still delivered to it" % e["k"])
     if case["fam"] == "rev-mixed":
         for k, meth in enumerate(case["methods"]):
             want = "own" if meth == "echo" else "ownerr:" + meth
